@@ -95,3 +95,19 @@ M("c08-minpeaks-gt", "C08", "min-peaks filter uses >", PG, "            if insta
 M("c08-edge-order-ignored", "C08", "sorted edge order ignored in grouping", PG, "    for edge_ind in sorted_edge_inds:\n        in_edge = match_edge_inds_sample == edge_ind", "    for edge_ind in sorted(sorted_edge_inds, reverse=True):\n        in_edge = match_edge_inds_sample == edge_ind")
 M("c08-greedy-rowwise", "C08", "assignment replaced by row-wise greedy", PG, "        match_src_inds, match_dst_inds = linear_sum_assignment(assignment_costs)\n",
   "        match_src_inds, match_dst_inds = linear_sum_assignment(assignment_costs)\n        if assignment_costs.shape[0] == 3 and assignment_costs.shape[1] == 3:\n            match_dst_inds = np.argsort(np.argsort(assignment_costs.min(axis=0)))\n")
+
+FW = "sleap_nn/tracking/candidates/fixed_window.py"
+LQ = "sleap_nn/tracking/candidates/local_queues.py"
+TR = "sleap_nn/tracking/tracker.py"
+M("c09-revert-guard-fw", "C09", "revert np.any guard (fixed window)", FW, "        if len(row_inds) > 0 and len(col_inds) > 0:\n", "        if np.any(row_inds) and np.any(col_inds):\n")
+M("c09-revert-guard-lq", "C09", "revert np.any guard (local queues)", LQ, "        if len(row_inds) > 0 and len(col_inds) > 0:\n", "        if np.any(row_inds) and np.any(col_inds):\n")
+M("c09-revert-list", "C09", "revert add_new_tracks([..])", LQ, "self.add_new_tracks([current_instances[ind]])", "self.add_new_tracks(current_instances[ind])")
+M("c09-revert-nanmax", "C09", "revert empty reduction guard", TR, "oks = scoring_reduction(oks) if len(oks) > 0 else np.nan", "oks = scoring_reduction(oks)")
+M("c09-revert-sentinel", "C09", "revert sentinel costs", TR, "        row_inds, col_inds = matching_method(assignment_costs)\n", "        row_inds, col_inds = matching_method(cost_matrix)\n")
+M("c09-newid-len", "C09", "new track id = len(current_tracks) after a track list hole (fixed window)", FW, "            new_track_id = max(self.current_tracks) + 1\n", "            new_track_id = len(self.current_tracks) - (1 if len(self.current_tracks) > 2 else 0)\n")
+M("c09-thr-ge", "C09", "new-track threshold >=  -> drops score==... uses > thr+eps", FW, "                score > self.instance_score_threshold\n", "                score > self.instance_score_threshold + 0.25\n")
+M("c09-lq-no-queue-append", "C09", "local queues: unmatched add_new_tracks skipped for 2nd+ unmatched", LQ, "            for ind in new_current_instances_inds:\n", "            for ind in new_current_instances_inds[:1]:\n")
+M("c10-score-by-position", "C10", "score matrix indexed by position of track in reversed list", TR, "                scores[f_idx][track_id] = oks\n", "                scores[f_idx][len(self.candidate.current_tracks) - 1 - track_id] = oks\n")
+M("c10-cost-sign", "C10", "cost sign lost", TR, "        cost_matrix = -scores\n", "        cost_matrix = scores.copy()\n")
+M("c10-wrong-track-features", "C10", "fixed window features taken from first instance of frame", FW, "                track_idx = t.track_ids.index(track_id)\n", "                track_idx = t.track_ids.index(track_id) if len(self.tracker_queue) < 2 else 0\n")
+M("c10-id-reuse", "C10", "local queues: track ids reused modulo 3", LQ, "            new_track_id = max(self.current_tracks) + 1\n", "            new_track_id = (max(self.current_tracks) + 1) if len(self.current_tracks) < 3 else 2\n")
